@@ -24,6 +24,10 @@ package main
 //   encoder_precision_history  on an arbitrary-precision encoder: Encode/Decode of []*big.Float of LOWER (24, 53)
 //                            and HIGHER precision than the encoder's, then of full-precision values on the SAME
 //                            encoder: error <= 2^-(min(logScale,prec)-logN-6) + |v| 2^-(prec-logN-10) (no 2^-53 floor)
+//   decodePublic_nearest     both precision paths x all four output types x logprec values: every published value is
+//                            a multiple of 2^-logprec AND within half a step of the Decode value, negative and positive
+//   encode_length_check      all four input types x both precision paths x sparse slot counts: len = slots accepted,
+//                            len < slots zero-padded, len = slots+1 / MaxSlots / MaxSlots+1 refused with an error
 //   errors_not_panics
 
 import (
@@ -490,6 +494,87 @@ func (e *c07cEnv) tieRoundPrec(c *Ctx) {
 	}
 }
 
+// tieRoundPrecBig: the same tie on the arbitrary-precision path ([]*big.Float and []*bignum.Complex receivers):
+// one slot holding an exactly known dyadic re + i*im (negative and positive), published value * 2^logprec.
+func (e *c07cEnv) tieRoundPrecBig(c *Ctx) {
+	if e.ci {
+		return
+	}
+	for rep := 0; rep < c.Scale(60, 300); rep++ {
+		logS := 30 + c.rng.Intn(10)
+		lp := 1 + c.rng.Intn(20)
+		pick := func() int64 {
+			for {
+				v := int64(c.rng.Intn(1<<30)) - (1 << 29)
+				// not exactly half way (the big path divides by exp(logprec*ln2), an approximation of 2^logprec)
+				if lp >= logS || (v<<uint(lp))&((int64(1)<<uint(logS))-1) != int64(1)<<uint(logS-1) {
+					return v
+				}
+			}
+		}
+		cre, cim := pick(), pick()
+		pt := ckks.NewPlaintext(e.params, 0)
+		pt.Scale = rlwe.NewScale(math.Exp2(float64(logS)))
+		pt.LogDimensions.Cols = 0
+		pt.IsNTT = false
+		q := e.params.Q()[0]
+		set := func(idx int, v int64) {
+			if v >= 0 {
+				pt.Value.Coeffs[0][idx] = uint64(v)
+			} else {
+				pt.Value.Coeffs[0][idx] = q - uint64(-v)
+			}
+		}
+		set(0, cre)
+		set(e.N/2, cim)
+		complexOut := c.rng.Intn(2) == 0
+		toK := func(x *big.Float) string {
+			k := new(big.Float).SetPrec(x.Prec()+64).SetMantExp(x, lp)
+			r := new(big.Float).SetPrec(x.Prec() + 64)
+			if k.Sign() >= 0 {
+				r.Add(k, big.NewFloat(0.5))
+			} else {
+				r.Sub(k, big.NewFloat(0.5))
+			}
+			ki, _ := r.Int(nil)
+			diff, _ := new(big.Float).Sub(k, new(big.Float).SetInt(ki)).Float64()
+			if math.Abs(diff) > math.Exp2(-40) {
+				return "notint"
+			}
+			return ki.String()
+		}
+		var outs []string
+		res := Try(func() string {
+			if complexOut {
+				v := make([]*bignum.Complex, 1)
+				if err := e.ecdBig.DecodePublic(pt, v, float64(lp)); err != nil {
+					return "err"
+				}
+				outs = []string{toK(v[0][0]), toK(v[0][1])}
+			} else {
+				v := make([]*big.Float, 1)
+				if err := e.ecdBig.DecodePublic(pt, v, float64(lp)); err != nil {
+					return "err"
+				}
+				outs = []string{toK(v[0])}
+			}
+			return ""
+		})
+		den := new(big.Int).Lsh(big.NewInt(1), uint(logS)).String()
+		for i, coef := range []int64{cre, cim} {
+			if i == 1 && !complexOut {
+				break
+			}
+			o := res
+			if res == "" {
+				o = outs[i]
+			}
+			c.Emit(fmt.Sprintf("ckks roundprec %d %s %d", coef, den, lp), o)
+			c.Count("tie:roundprec-big")
+		}
+	}
+}
+
 // ---------- probes ----------
 
 func (e *c07cEnv) randComplex(c *Ctx, n int, logMag int) []complex128 {
@@ -766,6 +851,170 @@ func (e *c07cEnv) probeDecodePublic(c *Ctx) {
 	}
 }
 
+// probeDecodePublicNearest: multiple of 2^-logprec and within half a step of Decode, for every path / type / sign.
+func (e *c07cEnv) probeDecodePublicNearest(c *Ctx) {
+	for _, useBig := range []bool{false, true} {
+		ecd := e.ecd64
+		if useBig {
+			ecd = e.ecdBig
+		}
+		for kind := 0; kind < 4; kind++ {
+			for _, lp := range []int{1, 3, 8, 17, 24} {
+				ls := 1 + c.rng.Intn(e.logMax)
+				slots := 1 << ls
+				vals := e.randComplex(c, slots, 0)
+				vals[0], vals[1] = complex(-0.3, -0.7), complex(0.6, 0.2)
+				if e.ci {
+					vals[0], vals[1] = complex(-0.3, 0), complex(0.6, 0)
+				}
+				pt := ckks.NewPlaintext(e.params, e.params.MaxLevel())
+				pt.LogDimensions.Cols = ls
+				args := fmt.Sprintf("%s slots=%d logprec=%d big=%v kind=%d", e.tag, slots, lp, useBig, kind)
+				d := Try(func() string {
+					if err := ecd.Encode(vals, pt); err != nil {
+						return "encode error"
+					}
+					step := math.Exp2(float64(-lp))
+					// returns (published, decoded) parts as big.Float pairs
+					var pub, dec []*big.Float
+					bf := func(x float64) *big.Float { return new(big.Float).SetFloat64(x) }
+					switch kind {
+					case 0:
+						p, q := make([]complex128, slots), make([]complex128, slots)
+						if ecd.DecodePublic(pt, p, float64(lp)) != nil || ecd.Decode(pt, q) != nil {
+							return "decode error"
+						}
+						for i := range p {
+							pub = append(pub, bf(real(p[i])), bf(imag(p[i])))
+							dec = append(dec, bf(real(q[i])), bf(imag(q[i])))
+						}
+					case 1:
+						p, q := make([]float64, slots), make([]float64, slots)
+						if ecd.DecodePublic(pt, p, float64(lp)) != nil || ecd.Decode(pt, q) != nil {
+							return "decode error"
+						}
+						for i := range p {
+							pub, dec = append(pub, bf(p[i])), append(dec, bf(q[i]))
+						}
+					case 2:
+						p, q := make([]*big.Float, slots), make([]*big.Float, slots)
+						if ecd.DecodePublic(pt, p, float64(lp)) != nil || ecd.Decode(pt, q) != nil {
+							return "decode error"
+						}
+						pub, dec = p, q
+					case 3:
+						p, q := make([]*bignum.Complex, slots), make([]*bignum.Complex, slots)
+						if ecd.DecodePublic(pt, p, float64(lp)) != nil || ecd.Decode(pt, q) != nil {
+							return "decode error"
+						}
+						for i := range p {
+							pub = append(pub, p[i][0], p[i][1])
+							dec = append(dec, q[i][0], q[i][1])
+						}
+					}
+					for i := range pub {
+						k := new(big.Float).SetPrec(300).SetMantExp(pub[i], lp)
+						ki, _ := new(big.Float).SetPrec(300).Add(k, big.NewFloat(0.5)).Int(nil)
+						if k.Sign() < 0 {
+							ki, _ = new(big.Float).SetPrec(300).Sub(k, big.NewFloat(0.5)).Int(nil)
+						}
+						off, _ := new(big.Float).Sub(k, new(big.Float).SetInt(ki)).Float64()
+						if math.Abs(off) > math.Exp2(-30) {
+							return fmt.Sprintf("entry %d is not a multiple of 2^-%d", i, lp)
+						}
+						diff, _ := new(big.Float).SetPrec(300).Sub(pub[i], dec[i]).Float64()
+						if math.Abs(diff) > step/2*(1+math.Exp2(-30)) {
+							sign := "positive"
+							if dec[i].Sign() < 0 {
+								sign = "negative"
+							}
+							return fmt.Sprintf("entry %d (%s value): |published - decoded| = %.3f steps", i, sign, math.Abs(diff)/step)
+						}
+					}
+					return ""
+				})
+				c.Probe("decodePublic_nearest", args, "C07/ckks-decodepublic-not-nearest", d)
+			}
+		}
+	}
+}
+
+// probeLength: Encode must refuse vectors longer than the plaintext's slot count (not only longer than MaxSlots).
+func (e *c07cEnv) probeLength(c *Ctx) {
+	maxSlots := e.params.MaxSlots()
+	mk := func(kind, n int) interface{} {
+		switch kind {
+		case 0:
+			v := make([]complex128, n)
+			for i := range v {
+				v[i] = complex(0.25+float64(i%7)/16, 0)
+			}
+			return v
+		case 1:
+			v := make([]float64, n)
+			for i := range v {
+				v[i] = 0.25 + float64(i%7)/16
+			}
+			return v
+		case 2:
+			v := make([]*big.Float, n)
+			for i := range v {
+				v[i] = big.NewFloat(0.25 + float64(i%7)/16)
+			}
+			return v
+		}
+		v := make([]*bignum.Complex, n)
+		for i := range v {
+			v[i] = &bignum.Complex{big.NewFloat(0.25 + float64(i%7)/16), new(big.Float)}
+		}
+		return v
+	}
+	for _, useBig := range []bool{false, true} {
+		ecd := e.ecd64
+		if useBig {
+			ecd = e.ecdBig
+		}
+		for kind := 0; kind < 4; kind++ {
+			for ls := 1; ls < e.logMax; ls++ { // sparse slot counts
+				slots := 1 << ls
+				short := 1 + c.rng.Intn(slots-1)
+				for _, n := range []int{slots, short, slots + 1, maxSlots, maxSlots + 1} {
+					pt := ckks.NewPlaintext(e.params, 1)
+					pt.LogDimensions.Cols = ls
+					args := fmt.Sprintf("%s big=%v kind=%d slots=%d len=%d", e.tag, useBig, kind, slots, n)
+					d := Try(func() string {
+						err := ecd.Encode(mk(kind, n), pt)
+						if n > slots {
+							if err == nil {
+								return "vector longer than the slot count accepted (silently truncated)"
+							}
+							return ""
+						}
+						if err != nil {
+							return "valid length refused"
+						}
+						have := make([]complex128, slots)
+						if err := ecd.Decode(pt, have); err != nil {
+							return "decode error"
+						}
+						for i := range have {
+							w := complex(0, 0)
+							if i < n {
+								w = complex(0.25+float64(i%7)/16, 0)
+							}
+							if cmplx.Abs(have[i]-w) > 1e-6 {
+								return fmt.Sprintf("slot %d", i)
+							}
+						}
+						return ""
+					})
+					c.Probe("encode_length_check", args, "C07/ckks-encode-length-not-checked-against-slots", d)
+				}
+			}
+		}
+	}
+}
+
 func (e *c07cEnv) probeMul(c *Ctx) {
 	logN := e.params.LogN()
 	r := e.params.RingQ().AtLevel(e.params.MaxLevel())
@@ -922,8 +1171,11 @@ func genC07CKKS(c *Ctx) {
 		e.tieCoeffs(c)
 		e.probeHistory(c)
 		e.tieRoundPrec(c)
+		e.tieRoundPrecBig(c)
 		e.probeRoundTrip(c)
 		e.probeDecodePublic(c)
+		e.probeDecodePublicNearest(c)
+		e.probeLength(c)
 		e.probeMul(c)
 		e.probeOrbit(c)
 		e.probeOverwrite(c)
